@@ -28,7 +28,7 @@ CHECKS["C03"] = dict(
 CHECKS["C22"] = dict(
     kind="py", module="c22", design_ref="§3-C22",
     technique="bounded-exhaustive enumeration of (delimiter, array) pairs through the real CLI code path, composed format -> read-back, against the identity model",
-    rule="arrays of length 1..3 over 18 strings (+ the delimiter) and length-20 arrays x @csv and @dsv(d) for all 93 printable ASCII d != '\"'; "
+    rule="arrays of length 1..3 over 18 strings (+ the delimiter), length-20 arrays, and long fields (62..130 bytes, around the SIMD chunk sizes) combined with short ones x @csv and @dsv(d) for all 93 printable ASCII d != '\"'; "
          "a case is the (delimiter, array) pair; non-trivial = distinct pair",
     level_text="Every (delimiter, array) pair of the bounded space is formatted by the real jq runner and read back by the real DSV input "
                "path; the composed function must be the identity. Exhaustive over the stated alphabets.",
